@@ -130,4 +130,10 @@ def run(tier="quick", seed=0, use_cache=True):
     rnd = random.Random(seed)
     res.samples = [{"valuation": k, "action": list(pyt["map"][k][1])} for k in rnd.sample(ks, 6)] + \
                   [{"unwrap": pu}]
+    from ..rules import cmpmacro
+    cmpmacro.extend(res, use_cache, ("TEST_KEY_SET_OR", "TEST_VALUE"))
+    res.explanation += ' CMP-MACRO: the key and value comparison macros the merge atoms stand for are genuine three-way comparisons in every family.'
+    from ..rules import typeexact
+    typeexact.extend(res, use_cache)
+    res.explanation += ' TYPE-EXACT: conflict resolution dispatches on the container kind through subclass-tolerant type tests.'
     return res
